@@ -570,6 +570,20 @@ Definition rp_ends_with_end (f : list N) : bool :=
   (64 <=? n) && (n <? rp_two63) && (n mod 8 =? 0) && fm_ch_crc_ok h
   && (fm_tag (fm_ch_fields h) =? JLS_TAG_END) && (fm_payload_length (fm_ch_fields h) =? 0).
 
+(* guard for the termination theorems (not part of the C): every CRC-valid chunk header image in the file, at any
+   byte offset, has item_next = 0 or item_next beyond its own offset.  The writer only produces such files; a
+   file that violates it (a chain that links backwards or to itself) makes the list walks of the C loop forever *)
+Fixpoint rp_links_fwd_go (o : N) (l : list N) : bool :=
+  match l with
+  | [] => true
+  | _ :: t =>
+    (let b := rp_take SIZEOF_chunk_header l in
+     if fm_ch_complete b && fm_ch_crc_ok b
+     then (fm_item_next (fm_ch_fields b) =? 0) || (o <? fm_item_next (fm_ch_fields b))
+     else true) && rp_links_fwd_go (o + 1) t
+  end.
+Definition rp_links_forward (f : list N) : bool := rp_links_fwd_go 0 f.
+
 Definition rp_open (f : list N) : rp_result :=
   match rp_scan f with
   | inl (c, rc) => rp_res rc (rp_w0 c) false
